@@ -21,6 +21,7 @@ ASSUMPTIONS = [
     'in "big" cases Connection.CHUNK_SIZE is overridden on the instances to 2^72 so that one pump moves the '
     'whole buffer; chunk-boundary behaviour is covered by the "real" cases (bounded lengths) and by C07',
     'schedules: lowest-source-id-first order with up to sched_deviations arbitrary deviations',
+    'back-pressure cases: the first two socket sends of A after establishment accept 1, n/2 or n-1 of the n octets offered',
 ]
 REQUIRED_CLASSES = {'all': ['one-seg', 'multi-seg']}
 QUICK_VALIDATE = 8
@@ -35,6 +36,9 @@ def cases(tier):
             k = (3 if na + nb <= 2 else 2) if tier == 'quick' else (4 if na + nb <= 2 else 3)
             out.append(dict(na=na, nb=nb, chunk='big', dev=0, kseg=k, steps=400))
     out.append(dict(na=1, nb=0, chunk='real', dev=0, kseg=2, steps=400))
+    # back-pressure: the socket accepts only part of what is offered on the first sends after establishment
+    out.append(dict(na=1, nb=0, chunk='big', dev=0, kseg=2, steps=400, bp=2))
+    out.append(dict(na=1, nb=1, chunk='big', dev=0, kseg=2, steps=400, bp=1, rx='msg'))
     if tier == 'thorough':
         out.append(dict(na=1, nb=1, chunk='big', dev=1, kseg=2, steps=400))
         out.append(dict(na=2, nb=0, chunk='big', dev=1, kseg=2, steps=400))
@@ -58,6 +62,19 @@ def harness(case, tier):
     c.prove(ok, 'established')
     if not ok:
         return dict(cls='not-established')
+    if case.get('rx'):
+        w.sock_a.recv_policy = w.sock_b.recv_policy = case['rx']
+    if case.get('bp'):
+        left = [case['bp']]
+
+        def short_write(sock, n):
+            # accept 1 octet, half, or all but one of what is offered (every option explored)
+            if left[0] <= 0 or not bool(n >= 2):
+                return n
+            left[0] -= 1
+            k = c.choose(3, 'short-write')
+            return [1, n // 2, n - 1][k]
+        w.sock_a.send_limit = short_write
 
     plan = []
     for i in range(case['na']):
